@@ -23,3 +23,45 @@ pub mod dh {
     #[no_mangle] #[inline(never)] pub fn vp_x_public_from_static(s: &[u8; 32]) -> [u8; 32] { PublicKey::from(&StaticSecret::from(*s)).to_bytes() }
     #[no_mangle] #[inline(never)] pub fn vp_x_was_contributory(s: &[u8; 32]) -> bool { SharedSecret(curve25519_dalek::montgomery::MontgomeryPoint(*s)).was_contributory() }
 }
+
+// C16 (Kani, feature serde): PublicKey and StaticSecret derive their serde impls; StaticSecret must round-trip UNCLAMPED
+#[cfg(all(kani, feature = "serde"))]
+include!(concat!(env!("VERIF_HOOK_DIR"), "/../kani/serde_model.rs"));
+#[cfg(all(kani, feature = "serde"))]
+mod kani_c16 {
+    use super::serde_model::*;
+    use crate::x25519::*;
+    fn first32(d: &[u8; CAP]) -> [u8; 32] { let mut o = [0u8; 32]; let mut i = 0; while i < 32 { o[i] = d[i]; i += 1; } o }
+    fn is_tuple32(b: &Buf, want: &[u8; 32]) -> bool {
+        if !(b.shape == SHAPE_TUPLE && b.declared == 32 && b.n == 32 && !b.in_tuple) { return false; }
+        let mut i = 0; while i < 32 { if b.b[i] != want[i] { return false; } i += 1; }
+        true
+    }
+    fn input() -> ([u8; CAP], usize, bool) {
+        let data: [u8; CAP] = kani::any(); let len: usize = kani::any(); kani::assume(len <= 40);
+        (data, len, kani::any())
+    }
+    #[kani::proof] #[kani::unwind(42)]
+    fn c16_x25519_public_key_roundtrip() {
+        let bytes: [u8; 32] = kani::any();
+        let b = ser(&PublicKey::from(bytes));
+        assert!(b.is_some()); assert!(is_tuple32(&b.unwrap(), &bytes));
+        let (data, len, compact) = input();
+        let got: Option<PublicKey> = de(&data, len, compact);
+        assert!(got.is_some() == framing_ok(len, 32, compact, false));
+        if let Some(c) = got { assert!(c.to_bytes() == first32(&data)); }
+    }
+    #[cfg(feature = "static_secrets")]
+    #[kani::proof] #[kani::unwind(42)]
+    fn c16_x25519_static_secret_roundtrip_unclamped() {
+        let bytes: [u8; 32] = kani::any();
+        let s = StaticSecret::from(bytes);
+        let b = ser(&s);
+        assert!(b.is_some()); assert!(is_tuple32(&b.unwrap(), &bytes));     // the stored bytes, not the clamped scalar
+        core::mem::forget(s);
+        let (data, len, compact) = input();
+        let got: Option<StaticSecret> = de(&data, len, compact);
+        assert!(got.is_some() == framing_ok(len, 32, compact, false));
+        if let Some(c) = got { assert!(c.to_bytes() == first32(&data)); core::mem::forget(c); }
+    }
+}
